@@ -223,7 +223,7 @@ static OPDEF* find_op(const char* name)
 
 static int cfg_fresh = 0;
 static long cfg_clock_at = 0;
-static unsigned cfg_op_timeout = 30;
+static unsigned cfg_op_timeout = 90;   /* wall-clock watchdog per op (endless loops); generous because checks run in parallel */
 static int cfg_threads = 0;
 
 /* processes one input line (modified in place) with the thread's environment; the result line (without "#k ") goes to res */
